@@ -14,6 +14,7 @@ import (
 	"time"
 
 	"github.com/runreveal/pql"
+	"github.com/runreveal/pql/parser"
 	"pgregory.net/rapid"
 
 	"verif/harness/gen"
@@ -38,6 +39,9 @@ type cliScript struct {
 	OutFile       bool     `json:"out_file"`
 	StaleOut      bool     `json:"stale_out_file"` // the -o file exists before the run
 	LongLineBytes int      `json:"long_line_bytes"` // >0: the last query carries a string literal this long
+	// DirAt >= 0 (transport "files" only): a directory is passed as one more
+	// input after that many files; reading it fails
+	DirAt *int `json:"dir_at,omitempty"`
 }
 
 func (s *cliScript) text() string {
@@ -139,7 +143,7 @@ func cliModel(s *cliScript) cliExpect {
 	for i, st := range s.Stmts {
 		last := i == len(s.Stmts)-1
 		text := st.Text
-		isLet := startsWithLet(stripLeadingComments(text))
+		isLet := isLetStatement(text)
 		if strings.TrimSpace(stripLeadingComments(text)) == "" {
 			if last && !s.FinalSemi {
 				continue // nothing at the end of input
@@ -171,6 +175,22 @@ func cliModel(s *cliScript) cliExpect {
 	}
 	exp.stdout = out.String()
 	return exp
+}
+
+// isLetStatement: what kind of statement a piece is, is the library's call:
+// a piece that parses as one tabular expression is a query, one that parses as
+// a let statement is a let; a piece that does not parse is classified by its
+// first token.
+func isLetStatement(text string) bool {
+	if stmts, err := parser.Parse(text); err == nil && len(stmts) == 1 {
+		switch stmts[0].(type) {
+		case *parser.LetStatement:
+			return true
+		case *parser.TabularExpr:
+			return false
+		}
+	}
+	return startsWithLet(stripLeadingComments(text))
 }
 
 // startsWithLet: the first token is the identifier `let`.
@@ -206,6 +226,63 @@ type cliRun struct {
 	timedOut       bool
 }
 
+// pieces cuts the input into the up to three files of the several-files modes.
+func (s *cliScript) pieces(input string) []string {
+	var cuts []int
+	for _, c := range s.Cuts {
+		if len(input) > 0 {
+			cuts = append(cuts, ((c%(len(input)+1))+len(input)+1)%(len(input)+1))
+		}
+	}
+	if len(cuts) > 2 {
+		cuts = cuts[:2]
+	}
+	if len(cuts) == 2 && cuts[0] > cuts[1] {
+		cuts[0], cuts[1] = cuts[1], cuts[0]
+	}
+	pieces := []string{}
+	prev := 0
+	for _, c := range cuts {
+		pieces = append(pieces, input[prev:c])
+		prev = c
+	}
+	return append(pieces, input[prev:])
+}
+
+// readBeforeDir: the script made of the statements whose semicolon lies in
+// the bytes read before the unreadable directory argument.
+func (s *cliScript) readBeforeDir(input string) *cliScript {
+	pieces := s.pieces(input)
+	at := min(max(*s.DirAt, 0), len(pieces))
+	limit := 0
+	for _, p := range pieces[:at] {
+		limit += len(p)
+	}
+	out := &cliScript{Lead: s.Lead, FinalSemi: true, FinalNewline: true}
+	var sb strings.Builder
+	sb.WriteString(s.Lead)
+	for i, st := range s.Stmts {
+		sb.WriteString(st.Text)
+		last := i == len(s.Stmts)-1
+		if last && !s.FinalSemi {
+			break // never terminated: pending when the failure strikes
+		}
+		sb.WriteString(";")
+		end := sb.Len()
+		if s.CRLF {
+			end += strings.Count(sb.String(), "\n")
+		}
+		if end <= limit {
+			out.Stmts = append(out.Stmts, st)
+			out.Seps = append(out.Seps, "\n")
+		}
+		if i < len(s.Seps) {
+			sb.WriteString(s.Seps[i])
+		}
+	}
+	return out
+}
+
 func runCLI(s *cliScript, input string) (cliRun, error) {
 	bin := os.Getenv("VERIF_CLI")
 	if bin == "" {
@@ -228,26 +305,7 @@ func runCLI(s *cliScript, input string) (cliRun, error) {
 		os.WriteFile(p, []byte(input), 0o644)
 		args = append(args, p)
 	case "files", "files-with-stdin":
-		// cut into up to three pieces
-		var cuts []int
-		for _, c := range s.Cuts {
-			if len(input) > 0 {
-				cuts = append(cuts, ((c%(len(input)+1))+len(input)+1)%(len(input)+1))
-			}
-		}
-		if len(cuts) > 2 {
-			cuts = cuts[:2]
-		}
-		if len(cuts) == 2 && cuts[0] > cuts[1] {
-			cuts[0], cuts[1] = cuts[1], cuts[0]
-		}
-		pieces := []string{}
-		prev := 0
-		for _, c := range cuts {
-			pieces = append(pieces, input[prev:c])
-			prev = c
-		}
-		pieces = append(pieces, input[prev:])
+		pieces := s.pieces(input)
 		for i, piece := range pieces {
 			if s.Transport == "files-with-stdin" && i == len(pieces)/2 {
 				args = append(args, "-")
@@ -258,8 +316,11 @@ func runCLI(s *cliScript, input string) (cliRun, error) {
 			os.WriteFile(p, []byte(piece), 0o644)
 			args = append(args, p)
 		}
-		if len(args) == 1 && args[0] != "-" {
-			// a single file argument is the one-file code path: fine as well
+		if s.DirAt != nil && s.Transport == "files" {
+			d := filepath.Join(dir, "part.d")
+			os.Mkdir(d, 0o755)
+			at := min(max(*s.DirAt, 0), len(args))
+			args = append(args[:at], append([]string{d}, args[at:]...)...)
 		}
 	default:
 		stdin = input
@@ -318,6 +379,18 @@ func checkCLI(s *cliScript) (msg string, harnessErr string) {
 		}
 		got = run.outFile
 	}
+	if s.DirAt != nil && s.Transport == "files" && s.LongLineBytes <= 65000 {
+		// one input cannot be read: everything read before it is processed, the
+		// failure is reported, nothing after it is read
+		must := cliModel(s.readBeforeDir(input))
+		if run.exit == 0 {
+			return fmt.Sprintf("an input that cannot be read (a directory among the files) and exit status 0\n stderr: %s", trunc(run.stderr, 300)), ""
+		}
+		if got != must.stdout {
+			return fmt.Sprintf("an input that cannot be read (a directory among the files): the output is not that of the statements read before it\n expected: %+q\n got:      %+q\n stderr: %s", trunc(must.stdout, 900), trunc(got, 900), trunc(run.stderr, 300)), ""
+		}
+		return "", ""
+	}
 	if s.LongLineBytes > 65000 {
 		// acceptable: complete correct processing, or a reported failure with
 		// stdout a prefix of the expected output that still holds the SQL of
@@ -358,7 +431,18 @@ func init() {
 	})
 }
 
-var cliSeps = []string{"\n", "\n", "\n", " ", "", "\n\n", "\n// a comment; with a semicolon\n", "  \n\t", "\n// c\n\n", " // trailing comment\n"}
+var cliSeps = []string{longCommentBlock(1100), longCommentBlock(4200), "\n", "\n", "\n", "\n", "\n", "\n", " ", "", "\n\n", "\n// a comment; with a semicolon\n", "  \n\t", "\n// c\n\n", " // trailing comment\n"}
+
+// longCommentBlock: comment lines of at least n bytes in all (a file header,
+// a commented-out block) between two statements.
+func longCommentBlock(n int) string {
+	var sb strings.Builder
+	sb.WriteString("\n")
+	for i := 0; sb.Len() < n; i++ {
+		fmt.Fprintf(&sb, "// %02d: nightly report; see the handbook, section %d\n", i, i%7)
+	}
+	return sb.String()
+}
 
 func layoutStmt(rt *rapid.T, g *gen.G, pr *gen.Printed) string {
 	n := len(pr.Toks)
@@ -437,7 +521,7 @@ func TestC16Scripts(t *testing.T) {
 				letNames = append(letNames, name) // later queries may try to use it: must then fail or see the earlier binding
 				kinds += "l"
 			case k <= 9:
-				s.Stmts = append(s.Stmts, cliStmt{"badquery", rapid.SampledFrom([]string{"T | where", "T | where tolower()", "T | bogus", "| count", "T | take 1.5", "T | where $left.a == 1", "T | join kind=weird (U) on k", "T T", "T | where a == 'x' 'y'"}).Draw(rt, "badquery")})
+				s.Stmts = append(s.Stmts, cliStmt{"badquery", rapid.SampledFrom([]string{"T | where", "T | where tolower()", "T | bogus", "| count", "T | take 1.5", "T | where $left.a == 1", "T | join kind=weird (U) on k", "T T", "T | where a == 'x' 'y'", "let | take 1", "let", "let // the table\n| count", "let x", "`let` | take"}).Draw(rt, "badquery")})
 				kinds += "q"
 			case k == 10:
 				s.Stmts = append(s.Stmts, cliStmt{"empty", rapid.SampledFrom([]string{"", " ", "// only a comment\n"}).Draw(rt, "empty")})
@@ -451,6 +535,8 @@ func TestC16Scripts(t *testing.T) {
 					"T | where s == \"x;y\" // tail; comment\n| count",
 					"T | where s == 'it\\'s // not a comment' | take 1",
 					"T | where `a\\` == 1",
+					"T | where s == 'a\ufeffb' | count",
+					"`a\ufeffb` | where `\ufeff` != '\u00a0' | take 1",
 					"T | project `C:\\logs\\`, b | where `C:\\logs\\` != 'x\\\\'",
 					"T | extend r = hits/`cache misses` | take 1",
 					"T | where s == \"tail\\\\\" // c\n| count",
@@ -472,11 +558,26 @@ func TestC16Scripts(t *testing.T) {
 		s.Cuts = []int{rapid.IntRange(0, 100000).Draw(rt, "cut1"), rapid.IntRange(0, 100000).Draw(rt, "cut2")}
 		s.OutFile = rapid.IntRange(0, 3).Draw(rt, "outfile") == 0
 		s.StaleOut = s.OutFile && rapid.Bool().Draw(rt, "staleout")
+		if s.Transport == "files" && rapid.IntRange(0, 5).Draw(rt, "dirarg") == 0 {
+			at := rapid.IntRange(0, 3).Draw(rt, "dirat")
+			s.DirAt = &at
+		}
 		// an unterminated statement whose text ends in a comment needs the newline
 		if len(s.Stmts) > 0 && !s.FinalSemi {
 			s.FinalNewline = s.FinalNewline || strings.Contains(s.Stmts[len(s.Stmts)-1].Text, "//")
 		}
-		switch rapid.IntRange(0, 24).Draw(rt, "longline") {
+		switch rapid.IntRange(0, 26).Draw(rt, "longline") {
+		case 25, 26:
+			// many small multi-line statements: more input than any buffer of
+			// the line reader holds at once
+			nmany := rapid.IntRange(60, 400).Draw(rt, "nmany")
+			s.Stmts = append(s.Stmts, cliStmt{"let", "let limit = 7"})
+			s.Seps = append(s.Seps, "\n")
+			for i := 0; i < nmany; i++ {
+				s.Stmts = append(s.Stmts, cliStmt{"query", fmt.Sprintf("Table%03d\n| where col%03d == %d\n| take limit", i, i, i)})
+				s.Seps = append(s.Seps, "\n")
+			}
+			kinds += "LQ*"
 		case 0:
 			// a line beyond the line reader's 64 KiB limit
 			s.LongLineBytes = 66000 + rapid.IntRange(0, 4000).Draw(rt, "longby")
@@ -507,6 +608,9 @@ func TestC16Scripts(t *testing.T) {
 			s.Seps = append(s.Seps, "\n", "\n", "\n")
 			kinds += "MMM"
 		}
+		if s.LongLineBytes > 65000 {
+			s.DirAt = nil // one read failure per script
+		}
 		checkOne := func(sc *cliScript) {
 			msg, herr := checkCLI(sc)
 			if herr != "" {
@@ -519,7 +623,7 @@ func TestC16Scripts(t *testing.T) {
 		}
 		checkOne(s)
 		// metamorphic: terminating the final statement or not makes no difference
-		if len(s.Stmts) > 0 && s.LongLineBytes <= 65000 {
+		if len(s.Stmts) > 0 && s.LongLineBytes <= 65000 && s.DirAt == nil {
 			twin := *s
 			twin.FinalSemi = !s.FinalSemi
 			if !twin.FinalSemi && strings.Contains(s.Stmts[len(s.Stmts)-1].Text, "//") {
@@ -537,6 +641,9 @@ func TestC16Scripts(t *testing.T) {
 		}
 		if s.StaleOut {
 			st.Class("output-file-existed")
+		}
+		if s.DirAt != nil {
+			st.Class("unreadable-input-among-files")
 		}
 		nt := strings.Contains(kinds, "Q*") || strings.Contains(kinds, "qQ") || strings.Contains(kinds, "lQ") || strings.Contains(kinds, "qL") || (strings.Contains(kinds, "L") && strings.HasSuffix(kinds, "Q*"))
 		if nt {
